@@ -18,10 +18,10 @@ import (
 	"time"
 )
 
-var twinLeaveOut = map[string]bool{"spop": true, "select": true, "move": true, "swapdb": true, "flushall": true, "client": true, "hello": true,
+var twinLeaveOut = map[string]bool{"spop": true, "select": true, "move": true, "swapdb": true, "flushall": true, "hello": true,
 	"multi": true, "exec": true, "discard": true, "watch": true, "unwatch": true, "reset": true, "quit": true}
 var twinNoCompare = map[string]bool{"srandmember": true, "hrandfield": true, "randomkey": true, "ttl": true, "pttl": true, "expiretime": true,
-	"pexpiretime": true, "scan": true, "hscan": true, "sscan": true, "object": true, "info": true}
+	"pexpiretime": true, "client": true, "scan": true, "hscan": true, "sscan": true, "object": true, "info": true}
 var twinMultiset = map[string]bool{"command": true, "keys": true, "hkeys": true, "hvals": true, "sort": true, "sort_ro": true}
 
 func twinCanon(n *Node) string { return n.String() }
@@ -186,6 +186,11 @@ func twinProgram(g *Gen) [][]string {
 		switch x := g.r.Intn(100); {
 		case x < 12:
 			add("HINCRBYFLOAT", g.pick("hfl", "hfl2", g.key()), g.pick("f", "f2"), bigs[g.r.Intn(len(bigs))])
+		case x < 14:
+			// verbatim text that is not ASCII: lengths on the wire are bytes (the replies differ per connection
+			// - ids, addresses - and are only required to be well-formed and of the right protocol)
+			add("CLIENT", "SETNAME", g.pick("caf\xc3\xa9", "\xe6\x97\xa5\xe6\x9c\xac\xe8\xaa\x9e-\xd0\xba\xd0\xbb", "plain", "\xf0\x9f\x98\x80"))
+			add("CLIENT", g.pick("LIST", "INFO", "GETNAME"))
 		case x < 16:
 			add("INCRBYFLOAT", g.pick("fl", g.key()), bigs[g.r.Intn(len(bigs))])
 		case x < 22:
